@@ -187,6 +187,15 @@ def run_play_many(scenario, d, factory, res):
     W = scenario["W"]
     T = float(scenario.get("T", 10.0))
     cfg = self_play.SelfPlayConfig(engine_factory=factory, size=3, workers=W)
+    if scenario.get("ply_limit") is not None:
+        cfg.ply_limit = int(scenario["ply_limit"])  # games that run into the ply limit are games too
+    if scenario.get("nofile"):
+        # the caller KEEPS every transcript it was given (a replay store); descriptors are finite
+        import resource
+
+        soft, hard = resource.getrlimit(resource.RLIMIT_NOFILE)
+        resource.setrlimit(resource.RLIMIT_NOFILE, (min(int(scenario["nofile"]), hard), hard))
+    kept = res.setdefault("_kept", [])
     t_engine = time.time()
     # The engine is built in a watched thread: scripted start-up faults fire while it is being built,
     # and building it is part of the first request's bounded time (a constructor that waits for the
@@ -266,6 +275,7 @@ def run_play_many(scenario, d, factory, res):
         elif "logs" in box:
             obs["outcome"] = "returned"
             obs["n"] = len(box["logs"])
+            kept.append(box["logs"])
             _tags(box["logs"], tf, seen_tags, prev_return, obs)
             prev_return = box["t_end"]
         else:
@@ -385,6 +395,7 @@ def run(scenario):
 
         res["error"] = "%s: %s\n%s" % (type(ex).__name__, ex, traceback.format_exc()[-1500:])
     finally:
+        res.pop("_kept", None)
         procs = list(res.pop("_procs", [])) + _worker_children()
         for p in procs:
             try:
